@@ -855,9 +855,28 @@ static void run_funcs(void)
             printf("I ctl fss %d %d %d\n", k, vd[j], Fs);
             printf("O %d\n", frame_size_select(k, vd[j], Fs));
          }
-         /* 400*new_size overflows `int` (undefined behaviour) for frame_size > INT_MAX/400: stay below */
+         /* (frame sizes above INT_MAX/400 are the corpus cases of mode fssbig) */
          printf("I ctl fss %d %d %d\n", 5000000, vd[j], Fs); printf("O %d\n", frame_size_select(5000000, vd[j], Fs));
          printf("I ctl fss %d %d %d\n", INT_MIN, vd[j], Fs); printf("O %d\n", frame_size_select(INT_MIN, vd[j], Fs));
+      }
+   }
+}
+
+/* corpus (defect D4, fixed by 212cbc41): frame sizes around INT_MAX/400 and the values for which 400*frame_size wraps
+   onto Fs; each case is flushed before the call so that a sanitizer report becomes the answer of that case */
+static void run_fssbig(void)
+{
+   int i, j, k;
+   static const int vd[] = {5000, 5001, 5005, 5009};
+   for (i = 0; i < 5; i++) for (j = 0; j < 4; j++) {
+      int Fs = FSS[i];
+      int big[10]; int nb = 0;
+      big[nb++] = 5368709; big[nb++] = 5368710; big[nb++] = Fs / 400 + (1 << 28); big[nb++] = Fs / 50 + (1 << 28);
+      big[nb++] = 10737418; big[nb++] = 42949673; big[nb++] = 85899346; big[nb++] = INT_MAX - 1; big[nb++] = INT_MAX;
+      big[nb++] = 6 * Fs / 50 + 1;
+      for (k = 0; k < nb; k++) {
+         printf("I ctl fss %d %d %d\n", big[k], vd[j], Fs); fflush(stdout);
+         printf("O %d\n", frame_size_select(big[k], vd[j], Fs)); fflush(stdout);
       }
    }
 }
@@ -998,6 +1017,7 @@ int main(int argc, char **argv)
    if (argc >= 3 && !strcmp(argv[1], "grid")) run_grid(atoi(argv[2]));
    else if (argc >= 4 && !strcmp(argv[1], "rand")) run_rand(strtoull(argv[2], 0, 10), atol(argv[3]));
    else if (argc >= 2 && !strcmp(argv[1], "forceauto")) run_forceauto();
+   else if (argc >= 2 && !strcmp(argv[1], "fssbig")) run_fssbig();
    else if (argc >= 2 && !strcmp(argv[1], "stdin")) run_lines();
    else if (argc >= 4 && !strcmp(argv[1], "reapp")) run_reapp(strtoull(argv[2], 0, 10), atol(argv[3]));
    else if (argc >= 4 && !strcmp(argv[1], "chain")) run_chain(strtoull(argv[2], 0, 10), atol(argv[3]));
